@@ -11,8 +11,7 @@
 -/
 import NiftyVerif.Lemmas.CgClassic
 import NiftyVerif.Lemmas.CgClassicIE
-import Mathlib.Algebra.Order.Ring.Rat
-import Mathlib.Algebra.Module.Prod
+import NiftyVerif.Lemmas.CgClassicExample
 
 set_option linter.unusedSectionVars false
 
@@ -29,10 +28,23 @@ theorem qe_consistent (S : Sys V K) (x g : V) :
     (QE.atWithGrad S x g).Consistent S ↔ g = trueGrad S x :=
   atWithGrad_consistent_iff S x g
 
+
+/-- non-vacuity: on `A = [[2,1],[1,3]]`, `b = (1,2)` the gradient at `x = (1,1)` is `(2,2)`; handing `at_with_grad` this
+    gradient gives a consistent object, handing it `(0,0)` does not -/
+example : (QE.atWithGrad exSys (1, 1) (2, 2)).Consistent exSys ∧ ¬ (QE.atWithGrad exSys (1, 1) (0, 0)).Consistent exSys := by
+  constructor
+  · rw [qe_consistent]; simp [trueGrad, exSys]; norm_num
+  · rw [qe_consistent]; simp [trueGrad, exSys]
+
 /-- `energy.at(x)` (and the constructor without `_grad`) is always consistent. -/
 theorem qe_at_consistent (S : Sys V K) (x : V) :
     (QE.at S x).grad = trueGrad S x ∧ (QE.at S x).value = trueValue S x :=
   at_consistent S x
+
+
+example : (QE.at exSys (1, 1)).grad = (2, 2) ∧ (QE.at exSys (1, 1)).value = 1 / 2 := by
+  rw [(qe_at_consistent exSys (1, 1)).1, (qe_at_consistent exSys (1, 1)).2]
+  simp [trueGrad, trueValue, exSys]; norm_num
 
 /-- Every energy object produced by `ConjugateGradient.__call__` — the returned one, every intermediate one, every one
     shown to the controller — carries `grad = A x − b` for its own position `x`.  Needs only linearity of `A`
@@ -44,6 +56,12 @@ theorem cg_grad_invariant (S : Sys V K) (hA : S.Linear) (c : Ctrl K τ) (nreset 
     (∀ E' ∈ (cg S c nreset fuel E).checked, E'.grad = trueGrad S E'.pos) := by
   have h := cg_basic S hA c nreset fuel E hE
   exact ⟨h.energy.1, fun E' h' => (h.made E' h').1, fun E' h' => (h.checkedC E' h').1⟩
+
+
+/-- non-vacuity (concrete evaluation, one instance): the hypotheses hold for `exSys`, and the run has two iterations -/
+example : exSys.Linear ∧ (QE.at exSys (0, 0)).Consistent exSys ∧
+    (cg exSys (gradNorm (some (1 / 1000)) none 1 (some 10)) 20 100 (QE.at exSys (0, 0))).made.length = 2 :=
+  ⟨exSys_spd.lin, at_consistent _ _, by decide +kernel⟩
 
 /-- ... and the value `½⟨x,Ax⟩ − ⟨b,x⟩` of its own position. -/
 theorem cg_value_correct (S : Sys V K) (hA : S.Linear) (c : Ctrl K τ) (nreset : Int) (fuel : Nat) (E : QE V K)
@@ -91,6 +109,16 @@ theorem ctrl_count_sound (c : Ctrl K τ) (l : List (Obs K)) (s : St τ) (h : c.f
     · left; refine ⟨lim, h1, ?_⟩; rw [hi] at h2; simp; omega
     · right; omega
 
+
+/-- non-vacuity (concrete evaluation): AbsDeltaEnergyController(deltaE = 1/10, convergence_level = 2) on the energies
+    5, 4, 3.99, 3.98: CONTINUE, CONTINUE, CONTINUE (counter 1), CONVERGED (counter 2) -/
+example : ((absDeltaE (1 / 10 : ℚ) 2 none).feed
+      [⟨1, 1, 5⟩, ⟨1, 1, 4⟩, ⟨1, 1, 399 / 100⟩]).map (fun p => (p.1.ccount, p.2)) = some (1, .continue_) ∧
+    ((absDeltaE (1 / 10 : ℚ) 2 none).feed
+      [⟨1, 1, 5⟩, ⟨1, 1, 4⟩, ⟨1, 1, 399 / 100⟩, ⟨1, 1, 398 / 100⟩]).map (fun p => (p.1.ccount, p.2))
+      = some (2, .converged) := by
+  decide +kernel
+
 /-- GradientNormController: CONVERGED (before the limit) means `‖g‖ ≤ tol_abs` or `‖g‖ ≤ tol_rel·‖g₀‖` where `g₀` is
     the gradient **of the start energy** — the relative tolerance is fixed by `start` and not recomputed.
     (`gnsq` is the squared norm; `0 ≤ t ∧ gnsq ≤ t²` is `sqrt gnsq ≤ t`, see `Ctrl.sqrt_le_iff_sq`.) -/
@@ -107,6 +135,14 @@ theorem gradnorm_ctrl_sound (ta tr : Option K) (level : Int) (limit : Option Int
     have haux := feed_aux_const _ (gradNorm_aux_const ta tr level limit) o0 os s _ hprev
     rw [haux] at h
     exact gradNorm_crit_true h
+
+
+/-- non-vacuity (concrete evaluation): tol_rel = 1/4 refers to the start norm 4 (squared 16): norm 2 → CONTINUE,
+    norm 1 → CONVERGED -/
+example : ((gradNorm (none : Option ℚ) (some (1 / 4)) 1 none).feed [⟨16, 16, 0⟩, ⟨4, 4, 0⟩]).map (·.2) = some .continue_ ∧
+    ((gradNorm (none : Option ℚ) (some (1 / 4)) 1 none).feed [⟨16, 16, 0⟩, ⟨4, 4, 0⟩, ⟨1, 1, 0⟩]).map (·.2)
+      = some .converged := by
+  decide +kernel
 
 /-- GradInfNormController: CONVERGED (before the limit) means `‖g‖∞ ≤ tol·|E|` with `E ≠ 0`. -/
 theorem gradinf_ctrl_sound (tol : Option K) (level : Int) (limit : Option Int) (hl : 1 ≤ level)
@@ -168,6 +204,13 @@ theorem stochastic_ctrl_sound (dE : K) (level : Int) (limit : Option Int) (memLe
     have e : ((o0 :: os) ++ [o]).map (·.value) = (o0 :: os).map (·.value) ++ [o.value] := by simp
     rw [haux, stochMem_lastN, ← e] at this
     exact this
+
+
+/-- non-vacuity (concrete evaluation): memory_length 2, deltaE 1/2: energies 5, 4, 4 → CONVERGED at the third call -/
+example : ((stochastic (1 / 2 : ℚ) 1 none 2).feed [⟨1, 1, 5⟩, ⟨1, 1, 4⟩]).map (·.2) = some .continue_ ∧
+    ((stochastic (1 / 2 : ℚ) 1 none 2).feed [⟨1, 1, 5⟩, ⟨1, 1, 4⟩, ⟨1, 1, 4⟩]).map (fun p => (p.1.aux, p.2))
+      = some ([4, 4], .converged) := by
+  decide +kernel
 
 /-! ## the CG loop and its verdict -/
 
@@ -257,6 +300,15 @@ theorem cg_gradnorm_sound (S : Sys V K) (hA : S.Linear) (hP : ∀ v, S.ip v (pre
       simp only [obs, hg, hE.1] at h7
       exact h7
 
+
+/-- non-vacuity (concrete evaluation, one instance): all hypotheses of `cg_gradnorm_sound` hold for `exSys` with
+    `GradientNormController(tol_abs_gradnorm = 1/5, iteration_limit = 10)`; the run returns CONVERGED through the
+    controller after one iteration -/
+example : exSys.Linear ∧ (∀ v, exSys.ip v (precond exSys v) = 0 → v = 0) ∧ (QE.at exSys (0, 0)).Consistent exSys ∧
+    (cg exSys (gradNorm (some (1 / 5)) none 1 (some 10)) 20 100 (QE.at exSys (0, 0))).status = .converged ∧
+    (cg exSys (gradNorm (some (1 / 5)) none 1 (some 10)) 20 100 (QE.at exSys (0, 0))).reason = .ctrlCheck :=
+  ⟨exSys_spd.lin, exSys_definite, at_consistent _ _, by decide +kernel, by decide +kernel⟩
+
 /-- Every step CG takes has a non-negative length; CG reports ERROR only through its give-up exits
     (`curv == 0`, `alpha < 0`, `gamma < 0`) or because the controller raised. -/
 theorem cg_alpha_positive_or_error (S : Sys V K) (hA : S.Linear) (c : Ctrl K τ) (nreset : Int) (fuel : Nat)
@@ -291,6 +343,10 @@ theorem cg_no_error_spd (S : Sys V K) (hS : S.SPD) (c : Ctrl K τ) (nreset : Int
     by_contra h0
     exact absurd (hp.gz h) (ne_of_gt (hS.P_pos _ h0))
 
+
+/-- non-vacuity: `exSys` is symmetric positive definite (`2x² + 2xy + 3y² > 0`) -/
+example : exSys.SPD := exSys_spd
+
 /-- On a symmetric positive definite system the quadratic energy `½⟨x,Ax⟩ − ⟨b,x⟩` decreases strictly from each energy
     object to the next (start energy first). -/
 theorem cg_energy_monotone (S : Sys V K) (hS : S.SPD) (c : Ctrl K τ) (nreset : Int) (fuel : Nat)
@@ -307,6 +363,12 @@ theorem cg_energy_monotone (S : Sys V K) (hS : S.SPD) (c : Ctrl K τ) (nreset : 
   intro a b ha hb hab
   rw [← (hall a ha).2, ← (hall b hb).2]
   exact hab
+
+
+/-- non-vacuity (concrete evaluation): the energies of the run on `exSys` are 0 > −25/36 > −7/10 -/
+example : (cg exSys (gradNorm (some (1 / 1000)) none 1 (some 10)) 20 100 (QE.at exSys (0, 0))).made.map (·.value)
+    = [-25 / 36, -7 / 10] := by
+  decide +kernel
 
 /-! ## InversionEnabler -/
 
@@ -327,6 +389,11 @@ theorem ie_modes_available (op : LinOp V) (hcap : op.capability < 16) (i : Nat) 
     simp only [Bool.and_eq_true, bne_iff_ne]
     exact ⟨by decide, h1⟩
   rw [if_pos this]
+
+
+/-- non-vacuity: capability TIMES|ADJOINT_TIMES (3), requested INVERSE_TIMES (2^2): offered, not supported, so CG runs -/
+example : (2 ^ 2) &&& addInverse exOp.capability ≠ 0 ∧ exOp.capability &&& (2 ^ 2) = 0 ∧ ieInvMode (2 ^ 2) = TIMES := by
+  decide
 
 /-- `InversionEnabler.apply(x, mode)` in a mode the operator supports is the operator itself. -/
 theorem inversion_enabler_direct (op : LinOp V) (approx : Option (LinOp V)) (c : Ctrl K τ) (ip : V → V → K)
@@ -385,5 +452,15 @@ theorem inversion_enabler_solves (op : LinOp V) (approx : Option (LinOp V)) (hca
   have := cg_gradnorm_sound (ieSys op approx ip ninfsq x mode) hA hP ta tr level limit hl 20 fuel _ hE hconv
   rw [← hrun, ← hy] at this
   exact this
+
+
+/-- non-vacuity (concrete evaluation, one instance): `InversionEnabler(exOp, GradientNormController(tol_abs=1/5,
+    iteration_limit=10)).inverse_times((1,2))` goes through CG, which reports CONVERGED -/
+example : (match inversionEnabler exOp none (gradNorm (some (1 / 5 : ℚ)) none 1 (some 10)) exIp exNinf 0 100 (1, 2) 4 with
+    | .solved _ run => decide (run.status = .converged)
+    | _ => false) = true ∧
+    (exOp.capability < 16) ∧ (ieSys exOp none exIp exNinf (1, 2) 4).Linear ∧
+    (∀ v, exIp v (precond (ieSys exOp none exIp exNinf (1, 2) 4) v) = 0 → v = 0) :=
+  ⟨by decide +kernel, by decide, exOp_linear _ _, exOp_definite _ _⟩
 
 end NiftyVerif.C14
